@@ -11,6 +11,7 @@ import (
 	"flag"
 	"fmt"
 	"io"
+	"math/bits"
 	"math/rand"
 	"os"
 	"path/filepath"
@@ -21,7 +22,19 @@ import (
 )
 
 type Case struct {
-	Gen    string `json:"gen"`
+	Gen string `json:"gen"`
+	// Type "" = a virtio-net read; "ck" = checksumNoFold/checksum(data, init);
+	// "ph" = pseudoHeaderChecksumNoFold(proto, src, dst, tlen)
+	Type      string `json:"type,omitempty"`
+	Init      uint64 `json:"init,string,omitempty"`
+	Data      []byte `json:"data,omitempty"`
+	Proto     uint8  `json:"proto,omitempty"`
+	Src       []byte `json:"src,omitempty"`
+	Dst       []byte `json:"dst,omitempty"`
+	TLen      uint16 `json:"tlen,omitempty"`
+	ObsNoFold uint64 `json:"obs_nofold,string,omitempty"`
+	ObsCk     uint16 `json:"obs_ck,omitempty"`
+
 	Raw    []byte `json:"raw"` // virtio_net_hdr + packet, as read(2) returns it
 	NBufs  int    `json:"nbufs"`
 	Offset int    `json:"offset"`
@@ -80,6 +93,15 @@ func classify(err error) int {
 
 // runImpl runs the real code on zero-filled buffers of equal size.
 func runImpl(c *Case) {
+	switch c.Type {
+	case "ck":
+		c.ObsNoFold = tun.VerifChecksumNoFold(append([]byte(nil), c.Data...), c.Init)
+		c.ObsCk = tun.VerifChecksum(append([]byte(nil), c.Data...), c.Init)
+		return
+	case "ph":
+		c.ObsNoFold = tun.VerifPseudoHeaderChecksumNoFold(c.Proto, c.Src, c.Dst, c.TLen)
+		return
+	}
 	c.Panic, c.PanicMsg, c.Touched, c.N, c.Err, c.ErrMsg, c.Segs = false, "", false, 0, 0, "", nil
 	bufs := make([][]byte, c.NBufs)
 	for i := range bufs {
@@ -261,6 +283,9 @@ func buildSuper(r *rand.Rand, s superSpec) []byte {
 	return raw
 }
 
+// share of super-packets up to the 64 KiB read buffer / up to 20000 bytes (the rest: <= 4 KiB)
+var pctBig, pctMedium = 3, 12
+
 var gsoSizes = []int{1, 2, 3, 8, 100, 536, 1200, 1448, 1460, 8948, 65495, 65535}
 var seqs = []uint32{0, 1, 0xffffffff, 0xfffffffe, 0xffff0000, 0x80000000, 0x7fffffff}
 var ids = []uint16{0, 1, 65535, 65534, 65500, 32768}
@@ -287,9 +312,9 @@ func randSuper(r *rand.Rand) superSpec {
 	// size class: mostly small, some medium, a few up to the 64 KiB read buffer
 	limit := 4096
 	switch x := r.Intn(100); {
-	case x < 3:
+	case x < pctBig:
 		limit = max
-	case x < 15:
+	case x < pctBig+pctMedium:
 		limit = 20000
 	}
 	if limit > max {
@@ -593,6 +618,12 @@ func scenarioUnitTests(r *rand.Rand) []Case {
 		runImpl(&c2)
 		res = append(res, c2)
 	}
+	// shorter than a virtio_net_hdr; a header only (gso_type TCPV4): in[0] is out of range
+	for _, raw := range [][]byte{{1, 1, 40, 0, 100}, {1, 1, 40, 0, 100, 0, 20, 0, 16, 0}} {
+		c := Case{Gen: "unit-short", Raw: raw, NBufs: 2, Offset: 16, Room: 65535, Info: map[string]any{"kind": "malformed-short", "nseg": 0}}
+		runImpl(&c)
+		res = append(res, c)
+	}
 	return res
 }
 
@@ -623,15 +654,12 @@ func scenarioUDPZero(r *rand.Rand) []Case {
 		w2 := (w + 2*65535 - f) % 65535
 		binary.BigEndian.PutUint16(c.Raw[at:], uint16(w2))
 		runImpl(&c)
-		if binary.BigEndian.Uint16(c.Segs[seg][cs+6:]) != 0 {
-			for x := 0; x < 65536; x++ { // fall back to search
-				binary.BigEndian.PutUint16(c.Raw[at:], uint16(x))
-				runImpl(&c)
-				if binary.BigEndian.Uint16(c.Segs[seg][cs+6:]) == 0 || binary.BigEndian.Uint16(c.Segs[seg][cs+6:]) == 0xffff {
-					break
-				}
-			}
+		// the computed checksum is now zero: the field shows 0x0000 (before repair 8d6518b) or
+		// 0xffff (after); anything else means the scenario was not constructed
+		if f := binary.BigEndian.Uint16(c.Segs[seg][cs+6:]); f != 0 && f != 0xffff {
+			panic(fmt.Sprintf("f6 scenario: checksum field %#04x, expected a computed zero", f))
 		}
+		c.Info["f6_field"] = binary.BigEndian.Uint16(c.Segs[seg][cs+6:])
 		res = append(res, c)
 	}
 	mk(false, false)
@@ -647,6 +675,177 @@ func scenarioExtHdr(r *rand.Rand) []Case {
 	c := Case{Gen: "ipv6-exthdr", Raw: buildSuper(r, s), NBufs: 8, Offset: 16, Room: 65535, Info: superInfo(s, "ipv6-exthdr")}
 	runImpl(&c)
 	return []Case{c}
+}
+
+// ---------------------------------------------------------------------------
+// direct differential of tun/checksum.go over the whole domain of the theorem
+// checksum_is_rfc1071: every 64-bit initial value, in particular accumulators at
+// the edge of 2^64 (the end-around carry), every block/tail combination.
+
+func bswap(v uint64) uint64 { return bits.ReverseBytes64(v) }
+
+func checksumCases(r *rand.Rand, thorough bool) []Case {
+	edge := []uint64{0, 1, 0xffff, 0xffffffff, 1 << 32, 1 << 63, ^uint64(0), ^uint64(0) - 1, 1<<64 - 1<<16, 1<<64 - 256, 1<<64 - 0x11, 0xffffffff00000000, 0xffffffffffff0000}
+	var inits []uint64
+	for _, e := range edge {
+		inits = append(inits, e, bswap(e)) // the code sums in the byte-swapped domain
+	}
+	for i := 0; i < 6; i++ {
+		v := ^uint64(0) - uint64(r.Intn(1<<uint(4+4*i)))
+		inits = append(inits, v, bswap(v))
+	}
+	inits = append(inits, r.Uint64(), r.Uint64())
+	var res []Case
+	add := func(gen string, init uint64, data []byte) {
+		c := Case{Gen: gen, Type: "ck", Init: init, Data: data, Info: map[string]any{"kind": "checksum", "len": len(data)}}
+		runImpl(&c)
+		res = append(res, c)
+	}
+	fill := func(n, pat int) []byte {
+		d := make([]byte, n)
+		switch pat {
+		case 0:
+			for i := range d {
+				d[i] = 0xff
+			}
+		case 1:
+		case 2:
+			r.Read(d)
+		default: // random with an all-ones tail
+			r.Read(d)
+			for i := n &^ 7; i < n; i++ {
+				d[i] = 0xff
+			}
+		}
+		return d
+	}
+	// every tail length: all 32/16/8/4/2/1-byte steps, every carry position
+	for _, init := range inits {
+		for n := 0; n <= 40; n++ {
+			for pat := 0; pat < 3; pat++ {
+				if pat == 1 && n%8 != 1 && !thorough {
+					continue // all-zero data only exercises the initial value
+				}
+				add("ck-grid", init, fill(n, pat))
+			}
+		}
+	}
+	// the 64- and 128-byte blocks with tails, accumulator saturated by all-ones data
+	longs := []int{63, 64, 65, 71, 100, 127, 128, 129, 131, 134, 135, 191, 192, 199, 255, 256, 257, 263, 1499, 1500, 1501, 9001}
+	for _, n := range longs {
+		for _, init := range []uint64{0, ^uint64(0), bswap(^uint64(0) - 0x10), r.Uint64()} {
+			add("ck-long", init, fill(n, 0))
+			add("ck-long", init, fill(n, 3))
+		}
+	}
+	// crafted: one 8-byte word chosen so that the accumulator is 2^64-0x11 when the tail is added
+	for n := 8; n <= 47; n++ {
+		if n%8 == 0 {
+			continue
+		}
+		d := fill(n, 3)
+		init := r.Uint64()
+		for i := 0; i < 8; i++ {
+			d[i] = 0
+		}
+		prefix := n &^ 7
+		ac := bswap(tun.VerifChecksumNoFold(d[:prefix], init)) // no tail step involved
+		target := uint64(0xffffffffffffffef)
+		if ac > target {
+			continue
+		}
+		binary.LittleEndian.PutUint64(d[0:8], target-ac)
+		add("ck-crafted", init, d)
+	}
+	if thorough {
+		for i := 0; i < 3000; i++ {
+			n := r.Intn(300)
+			init := r.Uint64()
+			if r.Intn(2) == 0 {
+				init = inits[r.Intn(len(inits))]
+			}
+			add("ck-random", init, fill(n, r.Intn(4)))
+		}
+	}
+	// pseudo header
+	for _, proto := range []uint8{6, 17} {
+		for _, alen := range []int{4, 16} {
+			for pat := 0; pat < 3; pat++ {
+				for _, tl := range []uint16{0, 1, 8, 0xffff, uint16(r.Intn(65536))} {
+					c := Case{Gen: "ph-grid", Type: "ph", Proto: proto, Src: fill(alen, pat), Dst: fill(alen, pat), TLen: tl, Info: map[string]any{"kind": "pseudo-header"}}
+					runImpl(&c)
+					res = append(res, c)
+				}
+			}
+		}
+	}
+	return res
+}
+
+// Super-packets whose first segment drives the 64-bit accumulator to 2^64-0x11 right before
+// the last (< 8) bytes of the transport segment, which are all ones: the end-around carry of
+// the 4-, 2- and 1-byte steps of checksumNoFold is needed for a valid checksum.
+func scenarioCarry(r *rand.Rand) []Case {
+	var res []Case
+	for _, k := range []struct{ v6, tcp bool }{{false, true}, {true, true}, {false, false}, {true, false}} {
+		for tail := 1; tail <= 7; tail++ {
+			s := superSpec{v6: k.v6, tcp: k.tcp, ihl: 20, thl: 8, seq: 0xfffffff0, flags: 0x18, id: 0x1000, vflags: needsCsum}
+			if k.tcp {
+				s.thl = 20 + 4*r.Intn(3)
+			}
+			s.gso = 96 + 8*r.Intn(4)
+			for (s.thl+s.gso)%8 != tail {
+				s.gso++
+			}
+			s.paylen = 2*s.gso + 30
+			s.hdrLenHint = uint16(s.hl())
+			c := Case{Gen: "csum-carry", NBufs: 8, Offset: 16, Room: 65535, Info: superInfo(s, "csum-carry")}
+			c.Raw = buildSuper(r, s)
+			cs, hl := s.cs(), s.hl()
+			pay := c.Raw[10+hl:]
+			segLen := s.thl + s.gso
+			prefix := segLen &^ 7
+			for i := prefix; i < segLen; i++ {
+				pay[i-s.thl] = 0xff
+			}
+			w := (8 - s.thl%8) % 8 // payload offset of an 8-byte aligned word of the transport segment
+			for i := w; i < w+8; i++ {
+				pay[i] = 0
+			}
+			runImpl(&c) // pass 1: learn segment 0 as emitted
+			seg0 := append([]byte(nil), c.Segs[0][cs:]...)
+			co := 6
+			proto := uint8(17)
+			if k.tcp {
+				co, proto = 16, 6
+			}
+			seg0[co], seg0[co+1] = 0, 0
+			alen := 4
+			so := 12
+			if k.v6 {
+				alen, so = 16, 8
+			}
+			ip := c.Segs[0]
+			pseudo := tun.VerifPseudoHeaderChecksumNoFold(proto, ip[so:so+alen], ip[so+alen:so+2*alen], uint16(len(seg0)))
+			ac := bswap(tun.VerifChecksumNoFold(seg0[:prefix], pseudo))
+			target := uint64(0xffffffffffffffef)
+			if ac > target {
+				target = ^uint64(0) // saturated already: the all-ones tail still carries
+				if ac != target {
+					continue
+				}
+			}
+			binary.LittleEndian.PutUint64(pay[w:], target-ac)
+			binary.LittleEndian.PutUint64(seg0[s.thl+w:], target-ac)
+			if got := bswap(tun.VerifChecksumNoFold(seg0[:prefix], pseudo)); got != target {
+				panic(fmt.Sprintf("csum-carry scenario: accumulator %#x, want %#x", got, target))
+			}
+			c.Info["tail"] = tail
+			runImpl(&c)
+			res = append(res, c)
+		}
+	}
+	return res
 }
 
 // ---------------------------------------------------------------------------
@@ -669,8 +868,16 @@ func packed(b []byte) string {
 	return sb.String()
 }
 
+func halves(v uint64) string { return fmt.Sprintf("%d %d", v>>32, v&0xffffffff) }
+
 func gallina(c Case) string {
 	var b strings.Builder
+	switch c.Type {
+	case "ck":
+		return fmt.Sprintf("mkck %s %d %s %s %d", halves(c.Init), len(c.Data), packed(c.Data), halves(c.ObsNoFold), c.ObsCk)
+	case "ph":
+		return fmt.Sprintf("mkph %d %d %s %d %s %d %s", c.Proto, len(c.Src), packed(c.Src), len(c.Dst), packed(c.Dst), c.TLen, halves(c.ObsNoFold))
+	}
 	n := c.N
 	if n < 0 {
 		n = 1 << 30
@@ -707,7 +914,7 @@ func writeShard(path string, cases []Case) error {
 }
 
 func weight(c Case) int {
-	w := 200 + len(c.Raw)
+	w := 200 + len(c.Raw) + len(c.Data)/4
 	for _, s := range c.Segs {
 		w += len(s)
 	}
@@ -723,6 +930,7 @@ func main() {
 	corpus := flag.String("corpus", "", "directory of corpus JSON cases to prepend")
 	noF6 := flag.Bool("no-f6", false, "leave out the dedicated zero-UDP-checksum scenario")
 	extHdr := flag.Bool("exthdr", false, "add the IPv6 extension header scenario")
+	thorough := flag.Bool("thorough", false, "thorough tier: more 64 KiB packets, random direct checksum calls")
 	flag.Parse()
 	if err := os.MkdirAll(*out, 0o755); err != nil {
 		panic(err)
@@ -764,8 +972,13 @@ func main() {
 				}
 			}
 		}
+		if !*thorough {
+			pctBig, pctMedium = 1, 8
+		}
 		r := rand.New(rand.NewSource(*seed))
 		cases = append(cases, scenarioUnitTests(r)...)
+		cases = append(cases, scenarioCarry(r)...)
+		cases = append(cases, checksumCases(r, *thorough)...)
 		if !*noF6 {
 			cases = append(cases, scenarioUDPZero(r)...)
 		}
